@@ -71,8 +71,11 @@ func init() {
 	xx(f, reflect.Ptr)
 
 	xx(mapKeyFastKindStr, reflect.String)
-	xx(mapKeyFastKind32, reflect.Uint32, reflect.Int32, reflect.Float32)
-	xx(mapKeyFastKind64, reflect.Uint64, reflect.Int64, reflect.Float64)
+	// float keys must go through the generic mapassign/mapaccess: the fast32/fast64 variants
+	// compare keys as raw bits (as the compiler only uses them for integer-like keys), which
+	// makes +0 and -0 two different keys and makes equal-bit NaNs the same key.
+	xx(mapKeyFastKind32, reflect.Uint32, reflect.Int32)
+	xx(mapKeyFastKind64, reflect.Uint64, reflect.Int64)
 }
 
 func mapKeyFastKindFor(k reflect.Kind) mapKeyFastKind {
